@@ -136,21 +136,22 @@ def read (s : St) : Place → Option Tree
        | none => some (.sc .null))
     | _ => none
 
-/-- the tree with the sub-tree under key `k` replaced by `f` of it (a missing key is
-created, as PHP does for `$a[k][…] = v`) -/
-def Tree.modifyAt (k : IKey) (f : Tree → Option Tree) : Tree → Option Tree
+/-- the tree with the sub-tree under key `k` replaced by `f` of it. A missing key is
+created when `create` is set (a store: PHP creates the intermediate arrays of
+`$a[k][…] = v`); `unset` and the in-place methods do not create anything. -/
+def Tree.modifyAt (create : Bool) (k : IKey) (f : Tree → Option Tree) : Tree → Option Tree
   | .arr kids =>
     (match Model.Heap.Keys.find k (tkeys kids) with
      | some j =>
        (match kids[j]? with
         | some (kk, c) => (f c).map (fun c' => .arr (kids.set j (kk, c')))
         | none => none)
-     | none => (f (.arr [])).map (fun c' => .arr (store kids (some k) c')))
+     | none => if create then (f (.arr [])).map (fun c' => .arr (store kids (some k) c')) else none)
   | .sc _ => none
 
 /-- rebuild the tree of the name at the root of `b` so that the value at `b` becomes
 `f` of it; every other name keeps its tree -/
-def modify (s : St) : Place → (Tree → Option Tree) → Option St
+def modify (s : St) (create : Bool) : Place → (Tree → Option Tree) → Option St
   | .var x, f =>
     match s.varVal? x with
     | some t => (f t).map (s.setVar x)
@@ -162,11 +163,11 @@ def modify (s : St) : Place → (Tree → Option Tree) → Option St
        | some t => (f t).map (s.setProp h p)
        | none => none)
     | none => none
-  | .idx b k, f => modify s b (Tree.modifyAt k f)
+  | .idx b k, f => modify s create b (Tree.modifyAt create k f)
 
 /-- apply `g` to the entries of the array at `b` -/
-def onArray (s : St) (b : Place) (g : List Entry → List Entry) : Option St :=
-  modify s b (fun t => match t with | .arr l => some (.arr (g l)) | .sc _ => none)
+def onArray (s : St) (create : Bool) (b : Place) (g : List Entry → List Entry) : Option St :=
+  modify s create b (fun t => match t with | .arr l => some (.arr (g l)) | .sc _ => none)
 
 mutual
 def litTree (s : St) : Lit → Option Tree
@@ -200,10 +201,10 @@ def stepOpt (s : St) : Op → Option St
     | _, _ => none
   | .setIdx b k r =>
     match evalRV s r with
-    | some t => onArray s b (fun l => store l k t)
+    | some t => onArray s true b (fun l => store l k t)
     | none => none
-  | .unset b k => onArray s b (fun l => unsetK l k)
-  | .meth b m => onArray s b (fun l => applyMeth l m)
+  | .unset b k => onArray s false b (fun l => unsetK l k)
+  | .meth b m => onArray s false b (fun l => applyMeth l m)
   | .new x =>
     some { (s.setVar x (.sc (.inst s.objs.length))) with objs := s.objs ++ [List.replicate np (.sc .null)] }
   | .clone x y =>
